@@ -6,7 +6,9 @@ is compared with what the real clone does; (2) dill.dumps/loads of whole schedul
 does, original vs restored under the same continuation."""
 import contextlib
 import io
+import json
 import logging
+import os
 
 import numpy as np
 
@@ -14,6 +16,7 @@ from common import lst, natlit, zlit, blit, optlit
 from drivers import c06 as h
 
 IMPORTS = h.IMPORTS
+FINDINGS = os.path.join(os.path.dirname(os.path.dirname(os.path.dirname(os.path.abspath(__file__)))), "findings")
 PRELUDE = h.PRELUDE + r"""
 (* RandomSearcher clone: ctor args, history, continuation, what the real clone did:
    None = clone_from_state raised AssertionError; Some l = answers of the clone's continuation *)
@@ -534,7 +537,10 @@ def directed_cases():
         # F-C16-6: the restrict_configurations list of the snapshot is shared with the snapshot source
         dict(kind="rs_twin", spec=rs_spec, pts=[], restrict=rc, allow_dup=False, debug=True, seed=1,
              ops=["get"] * 12, cuts=[0], pickle_state=False, order="interleaved"),
-    ]
+    ] + [json.load(open(os.path.join(FINDINGS, f)))["case"]
+         for f in ("C16-random-snapshot-shares-config-for-trial-id.json",      # F-C16-7
+                   "C16-gp-second-restore-from-same-snapshot.json")            # F-C16-8
+         if os.path.exists(os.path.join(FINDINGS, f))]
 
 
 def run(ctx, replay=None):
